@@ -197,6 +197,16 @@ func runTLSOps(ops []string) []string {
 				continue
 			}
 			_, _, cn1 := p.dial(port, tls.VersionTLS13, nil)
+			if len(f) > 2 && f[2] == "updated" {
+				// an ordinary options update in between: read-modify-write of an unrelated option
+				o := n.GetExportOptions()
+				o.IdleTimeout += time.Second
+				if err := n.UpdateExportOptions(o); err != nil {
+					out[i] = "error:update-" + err.Error()
+					stop()
+					continue
+				}
+			}
 			p.writeServerCert("srv2")
 			err := n.GetExportOptions().TLS.ReloadCertificates() // the documented rotation step
 			_, _, cn2 := p.dial(port, tls.VersionTLS13, nil)
@@ -246,7 +256,7 @@ func tlsOracle(r *Result, ops, impl []string) {
 func mustAtoi(s string) int { v, _ := strconv.Atoi(s); return v }
 
 func checkC30(r *Result, rng *rand.Rand, thorough bool) {
-	r.Rule = "all 25 MinVersion x MaxVersion combinations in {unset, 1.0, 1.1, 1.2, 1.3} (Validate decision compared), every accepted one started as a real server and dialled by clients forcing 1.0, 1.1, 1.2 and 1.3 (crypto/tls default minimum lowered with tls10server=1); ClientAuth 0..4 x {no cert, self-signed, CA-signed} with a NULL call after the handshake; certificate rotation through GetExportOptions().TLS.ReloadCertificates(); finite space, enumerated completely; every case non-trivial"
+	r.Rule = "all 25 MinVersion x MaxVersion combinations in {unset, 1.0, 1.1, 1.2, 1.3} (Validate decision compared), every accepted one started as a real server and dialled by clients forcing 1.0, 1.1, 1.2 and 1.3 (crypto/tls default minimum lowered with tls10server=1); ClientAuth 0..4 x {no cert, self-signed, CA-signed} with a NULL call after the handshake; certificate rotation through GetExportOptions().TLS.ReloadCertificates(), right after Listen and after an UpdateExportOptions round trip; finite space, enumerated completely; every case non-trivial"
 	vers := []int{0, tls.VersionTLS10, tls.VersionTLS11, tls.VersionTLS12, tls.VersionTLS13}
 	var ops []string
 	for _, mn := range vers {
@@ -270,7 +280,7 @@ func checkC30(r *Result, rng *rand.Rand, thorough bool) {
 			ops = append(ops, fmt.Sprintf("tls accepts %d %s %s", ca, pc[0], pc[1]))
 		}
 	}
-	ops = append(ops, "tls rotate")
+	ops = append(ops, "tls rotate", "tls rotate updated")
 	impl = runTLSOps(ops)
 	tlsOracle(r, ops, impl)
 	var cases []Case
